@@ -525,7 +525,7 @@ class TT():
                 raise IncompatibleTypes(
                     'Addition between a tensor and a matrix is not defined.')
         else:
-            InvalidArguments('Second term is incompatible.')
+            raise InvalidArguments('Second term is incompatible.')
 
         return result
 
@@ -655,7 +655,7 @@ class TT():
                 raise IncompatibleTypes(
                     'Addition between a tensor and a matrix is not defined.')
         else:
-            InvalidArguments(
+            raise InvalidArguments(
                 'Second term is incompatible (must be either torchtt.TT or int or float or torch.tensor with 1 element).')
 
         return result
